@@ -1,12 +1,26 @@
 /-
   C13 — Learners obey the algebraic laws of the Rescorla–Wagner map.
 
-  The laws are theorems about the specification `rwLearn`; C01's theorems
-  (`dictNdl_eq_spec`, `kernel_*_eq_spec`) transport them to the models of
-  every implementation, and the correspondence run ties those to the code.
+  Two layers:
+  * the laws as theorems about the specification `rwLearn` (`row_depends_only`,
+    `rename_equivariant`, `cue_perm`, `affine`, `linear_part`,
+    `lambda_homogeneous`, `beta2_zero`, `beta2_zero_seq`, `alpha_zero`,
+    `alpha_zero_cue`);
+  * the laws as theorems about the IMPLEMENTATION MODELS (PyndlProofs/LawsModels):
+    each relates two or three runs of the model of `dict_ndl` (`dict_*`) resp.
+    of `ndl.ndl` (`ndl_*`: counting, id maps, chunk files, either kernel method,
+    labels) and says that the runs succeed and their results are related —
+    `*_row_depends_only`, `*_rename_equivariant`, `*_affine`,
+    `*_lambda_homogeneous`, `*_alpha_zero…`, `*_beta2_zero`.  They are obtained
+    from the first layer through `dictNdl_eq_spec` / `ndlModel_eq_spec` /
+    `ndlModel_continue_eq_spec`; `dict_transport` is the transport lemma for
+    `dict_ndl` in the direction "whatever the model returns is `rwLearn`".
+  The correspondence run ties the models to the code.
 -/
 import PyndlProofs.Laws
 import PyndlProofs.Dict
+import PyndlProofs.LawsModels
+import PyndlModel.Generated
 
 namespace Pyndl.C13
 open Pyndl List
@@ -22,22 +36,8 @@ def view (o : κ) (e : Event ι κ) : List ι × Bool := (e.cues, decide (o ∈ 
     renaming *other* outcomes leaves row `o` unchanged. -/
 theorem row_depends_only (α : ι → R) (β₁ β₂ lam : R) (W W' : κ → ι → R)
     (es es' : List (Event ι κ)) (o : κ) (hW : W o = W' o) (hv : es.map (view o) = es'.map (view o)) :
-    rwLearn α β₁ β₂ lam W es o = rwLearn α β₁ β₂ lam W' es' o := by
-  rw [rwLearn_row, rwLearn_row, hW]
-  generalize W' o = r
-  induction es generalizing es' r with
-  | nil =>
-    cases es' with
-    | nil => rfl
-    | cons _ _ => simp at hv
-  | cons e es ih =>
-    cases es' with
-    | nil => simp at hv
-    | cons e' es' =>
-      simp only [List.map_cons, List.cons.injEq, view, Prod.mk.injEq] at hv
-      simp only [List.foldl_cons]
-      rw [hv.1.1, hv.1.2]
-      exact ih es' hv.2 _
+    rwLearn α β₁ β₂ lam W es o = rwLearn α β₁ β₂ lam W' es' o :=
+  rwLearn_row_depends_only α β₁ β₂ lam W W' es es' o hW hv
 
 /-- **renaming equivariance**: renaming cues by an injection `f` and outcomes by
     an injection `g` (in the events, the initial weights and the per-cue α)
@@ -80,23 +80,156 @@ theorem lambda_homogeneous (α : ι → R) (β₁ β₂ lam k : R) (es : List (E
   have := rwLearn_smul α β₁ β₂ lam k (fun _ _ => (0 : R)) es o c
   simpa using this
 
-/-- **β₂ = 0**: an event that does not contain outcome `o` leaves row `o` untouched -/
+/-- **β₂ = 0**, one step: an event that does not contain outcome `o` leaves row `o` untouched -/
 theorem beta2_zero (α : ι → R) (β₁ lam : R) (W : κ → ι → R) (e : Event ι κ) (o : κ)
     (h : o ∉ e.outcomes) : rwStep α β₁ 0 lam W e o = W o := by
   simp only [rwStep, h, decide_false]
   exact rwRow_beta2_zero α β₁ lam (W o) e.cues
 
-/-- **α = 0**: nothing is learned -/
+/-- **β₂ = 0**, sequence form: all events that do not contain outcome `o` can be
+    removed from the sequence without changing row `o`; in particular a row
+    whose outcome occurs in no event is left untouched -/
+theorem beta2_zero_seq (α : ι → R) (β₁ lam : R) (W : κ → ι → R) (es : List (Event ι κ)) (o : κ) :
+    rwLearn α β₁ 0 lam W es o = rwLearn α β₁ 0 lam W (es.filter (fun e => decide (o ∈ e.outcomes))) o ∧
+    ((∀ e ∈ es, o ∉ e.outcomes) → rwLearn α β₁ 0 lam W es o = W o) :=
+  ⟨rwLearn_beta2_zero_filter α β₁ lam W es o, rwLearn_beta2_zero_absent α β₁ lam W es o⟩
+
+/-- **α = 0** (all cues): nothing is learned -/
 theorem alpha_zero (β₁ β₂ lam : R) (W : κ → ι → R) (es : List (Event ι κ)) :
     rwLearn (fun _ => (0 : R)) β₁ β₂ lam W es = W :=
   rwLearn_alpha_zero β₁ β₂ lam W es
 
-/-- transport to the pure-Python learner: every law above holds for what the
-    model of `dict_ndl` returns, because it returns `rwLearn`. -/
-theorem laws_hold_for_dictNdl (p : DupPolicy) (α : ι → R) (β₁ β₂ lam : R) (W₀ : WDict ι κ R)
+/-- **α = 0, per cue**: a cue whose learning rate is 0 keeps its weight in every
+    row, whatever the learning rates of the other cues (`dict_ndl` takes a
+    per-cue α) -/
+theorem alpha_zero_cue (α : ι → R) (β₁ β₂ lam : R) (W : κ → ι → R) (es : List (Event ι κ))
+    (o : κ) (c : ι) (h : α c = 0) : rwLearn α β₁ β₂ lam W es o c = W o c :=
+  rwLearn_alpha_zero_cue α β₁ β₂ lam W es o c h
+
+/-! ## the laws as theorems about the model of `dict_ndl` -/
+
+/-- **transport lemma** (replaces `laws_hold_for_dictNdl`, which was
+    `C01.dictNdl_eq_spec` verbatim): WHATEVER the model of `dict_ndl` returns is
+    the specification on the policy-processed events, and the policy accepted
+    them — so every law above is a law of the model's results -/
+theorem dict_transport (p : DupPolicy) (α : ι → R) (β₁ β₂ lam : R) (W₀ W : WDict ι κ R)
+    (es : List (Event ι κ)) (h : dictNdl p α β₁ β₂ lam W₀ es = some W) :
+    ∃ es', applyPolicyAll p es = some es' ∧ wdAbs W = rwLearn α β₁ β₂ lam (wdAbs W₀) es' :=
+  dictNdl_transport p α β₁ β₂ lam W₀ W es h
+
+/-- **row locality, `dict_ndl`**: two runs (any duplicate policies, any event
+    lists) whose initial dicts agree on row `o` and whose policy-processed
+    events look the same from `o` return the same row `o` -/
+theorem dict_row_depends_only (p p' : DupPolicy) (α : ι → R) (β₁ β₂ lam : R) (W₀ W₀' : WDict ι κ R)
+    (es₁ es₂ es₁' es₂' : List (Event ι κ)) (o : κ)
+    (hp₁ : applyPolicyAll p es₁ = some es₁') (hp₂ : applyPolicyAll p' es₂ = some es₂')
+    (hW : wdAbs W₀ o = wdAbs W₀' o) (hv : es₁'.map (view o) = es₂'.map (view o)) :
+    ∃ A B, dictNdl p α β₁ β₂ lam W₀ es₁ = some A ∧ dictNdl p' α β₁ β₂ lam W₀' es₂ = some B ∧
+      wdAbs A o = wdAbs B o :=
+  dictNdl_row_depends_only p p' α β₁ β₂ lam W₀ W₀' es₁ es₂ es₁' es₂' o hp₁ hp₂ hW hv
+
+/-- **renaming equivariance, `dict_ndl`** -/
+theorem dict_rename_equivariant {ι' κ' : Type} [DecidableEq ι'] [DecidableEq κ']
+    (f : ι → ι') (g : κ → κ') (hf : Function.Injective f) (hg : Function.Injective g)
+    (p : DupPolicy) (α : ι → R) (α' : ι' → R) (hα : ∀ c, α' (f c) = α c) (β₁ β₂ lam : R)
+    (W₀ : WDict ι κ R) (W₀' : WDict ι' κ' R) (hW : ∀ o c, wdAbs W₀' (g o) (f c) = wdAbs W₀ o c)
     (es es' : List (Event ι κ)) (hp : applyPolicyAll p es = some es') :
-    ∃ W, dictNdl p α β₁ β₂ lam W₀ es = some W ∧ wdAbs W = rwLearn α β₁ β₂ lam (wdAbs W₀) es' :=
-  Pyndl.dictNdl_eq_spec p α β₁ β₂ lam W₀ es es' hp
+    ∃ A B, dictNdl p α β₁ β₂ lam W₀ es = some A ∧
+      dictNdl p α' β₁ β₂ lam W₀' (es.map (fun e => ⟨e.cues.map f, e.outcomes.map g⟩)) = some B ∧
+      ∀ o c, wdAbs B (g o) (f c) = wdAbs A o c :=
+  dictNdl_rename_equivariant f g hf hg p α α' hα β₁ β₂ lam W₀ W₀' hW es es' hp
+
+/-- **affine in the initial weights, `dict_ndl`**: the run from a dict denoting
+    `W + V` (with λ) is the run from `W` (with λ) plus the run from `V` with λ = 0 -/
+theorem dict_affine (p : DupPolicy) (α : ι → R) (β₁ β₂ lam : R) (W₀ V₀ S₀ : WDict ι κ R)
+    (hS : ∀ o c, wdAbs S₀ o c = wdAbs W₀ o c + wdAbs V₀ o c)
+    (es es' : List (Event ι κ)) (hp : applyPolicyAll p es = some es') :
+    ∃ S W V, dictNdl p α β₁ β₂ lam S₀ es = some S ∧ dictNdl p α β₁ β₂ lam W₀ es = some W ∧
+      dictNdl p α β₁ β₂ 0 V₀ es = some V ∧ ∀ o c, wdAbs S o c = wdAbs W o c + wdAbs V o c :=
+  dictNdl_affine p α β₁ β₂ lam W₀ V₀ S₀ hS es es' hp
+
+/-- **proportional to λ from zero, `dict_ndl`** -/
+theorem dict_lambda_homogeneous (p : DupPolicy) (α : ι → R) (β₁ β₂ lam k : R)
+    (es es' : List (Event ι κ)) (hp : applyPolicyAll p es = some es') :
+    ∃ A B, dictNdl p α β₁ β₂ (k * lam) [] es = some A ∧ dictNdl p α β₁ β₂ lam [] es = some B ∧
+      ∀ o c, wdAbs A o c = k * wdAbs B o c :=
+  dictNdl_lambda_homogeneous p α β₁ β₂ lam k es es' hp
+
+/-- **per-cue α = 0 and β₂ = 0, `dict_ndl`**: whatever the model returns, a cue
+    with learning rate 0 keeps its weight; with β₂ = 0 a row whose outcome
+    occurs in no event is untouched -/
+theorem dict_alpha_beta2_zero (p : DupPolicy) (α : ι → R) (β₁ β₂ lam : R) (W₀ : WDict ι κ R)
+    (es : List (Event ι κ)) :
+    (∀ W, dictNdl p α β₁ β₂ lam W₀ es = some W → ∀ o c, α c = 0 → wdAbs W o c = wdAbs W₀ o c) ∧
+    (∀ W, dictNdl p α β₁ 0 lam W₀ es = some W → ∀ o, (∀ e ∈ es, o ∉ e.outcomes) → wdAbs W o = wdAbs W₀ o) :=
+  ⟨fun W h o c hc => dictNdl_alpha_zero_cue p α β₁ β₂ lam W₀ W es h o c hc,
+    fun W h o ho => dictNdl_beta2_zero p α β₁ lam W₀ W es h o ho⟩
+
+/-! ## the laws as theorems about the model of `ndl.ndl` -/
+
+/-- **row locality, `ndl.ndl`**: two runs from scratch — possibly with different
+    methods, chunk sizes and duplicate policies — over event files whose
+    policy-processed events look the same from outcome `o` return the same
+    weights for `o`, at every cue -/
+theorem ndl_row_depends_only (cfg₁ cfg₂ : NdlCfg) (hper₁ : 2 ≤ cfg₁.perFile) (hjob₁ : 1 ≤ cfg₁.perJob)
+    (hper₂ : 2 ≤ cfg₂.perFile) (hjob₂ : 1 ≤ cfg₂.perJob) (alpha β₁ β₂ lam : R)
+    (es₁ es₂ es₁' es₂' : List (Event String String)) (o : String)
+    (hp₁ : applyPolicyAll cfg₁.policy es₁ = some es₁') (hp₂ : applyPolicyAll cfg₂.policy es₂ = some es₂')
+    (hfit₁ : Fits32 es₁) (hfit₂ : Fits32 es₂) (hview : es₁'.map (view o) = es₂'.map (view o)) :
+    ∃ a b, ndlModel Generated.pyMagic Generated.pyVersion cfg₁ alpha β₁ β₂ lam none es₁ = .ok (a, es₁.length) ∧
+      ndlModel Generated.pyMagic Generated.pyVersion cfg₂ alpha β₁ β₂ lam none es₂ = .ok (b, es₂.length) ∧
+      ∀ c, a.get o c = b.get o c :=
+  ndlModel_row_depends_only _ _ (by decide) (by decide) cfg₁ cfg₂ hper₁ hjob₁ hper₂ hjob₂ alpha β₁ β₂ lam
+    es₁ es₂ es₁' es₂' o hp₁ hp₂ hfit₁ hfit₂ hview
+
+/-- **renaming equivariance, `ndl.ndl`**: renaming cues by an injection `f` and
+    outcomes by an injection `g` in the event file renames the returned matrix -/
+theorem ndl_rename_equivariant (cfg : NdlCfg) (hper : 2 ≤ cfg.perFile) (hjob : 1 ≤ cfg.perJob)
+    (alpha β₁ β₂ lam : R) (f g : String → String) (hf : Function.Injective f) (hg : Function.Injective g)
+    (es es' : List (Event String String)) (hp : applyPolicyAll cfg.policy es = some es')
+    (hfit : Fits32 es) (hfit' : Fits32 (es.map (fun e => ⟨e.cues.map f, e.outcomes.map g⟩))) :
+    ∃ a b, ndlModel Generated.pyMagic Generated.pyVersion cfg alpha β₁ β₂ lam none es = .ok (a, es.length) ∧
+      ndlModel Generated.pyMagic Generated.pyVersion cfg alpha β₁ β₂ lam none
+        (es.map (fun e => ⟨e.cues.map f, e.outcomes.map g⟩)) = .ok (b, es.length) ∧
+      ∀ o c, b.get (g o) (f c) = a.get o c :=
+  ndlModel_rename_equivariant _ _ (by decide) (by decide) cfg hper hjob alpha β₁ β₂ lam f g hf hg es es' hp
+    hfit hfit'
+
+/-- **affine in the initial weights, `ndl.ndl`**: three continued runs — from a
+    labelled matrix `s` denoting `w + v` with λ, from `w` with λ, from `v` with
+    λ = 0 — satisfy `result(s) = result(w) + result(v)` at every pair of labels -/
+theorem ndl_affine (cfg : NdlCfg) (hper : 2 ≤ cfg.perFile) (hjob : 1 ≤ cfg.perJob) (alpha β₁ β₂ lam : R)
+    (w v s : LW R) (hs : ∀ o c, s.get o c = w.get o c + v.get o c)
+    (es es' : List (Event String String)) (hp : applyPolicyAll cfg.policy es = some es')
+    (fw : Fits32With w es) (fv : Fits32With v es) (fs : Fits32With s es) :
+    ∃ rs rw rv, ndlModel Generated.pyMagic Generated.pyVersion cfg alpha β₁ β₂ lam (some s) es = .ok (rs, es.length) ∧
+      ndlModel Generated.pyMagic Generated.pyVersion cfg alpha β₁ β₂ lam (some w) es = .ok (rw, es.length) ∧
+      ndlModel Generated.pyMagic Generated.pyVersion cfg alpha β₁ β₂ 0 (some v) es = .ok (rv, es.length) ∧
+      ∀ o c, rs.get o c = rw.get o c + rv.get o c :=
+  ndlModel_affine _ _ (by decide) (by decide) cfg hper hjob alpha β₁ β₂ lam w v s hs es es' hp fw fv fs
+
+/-- **proportional to λ from zero, `ndl.ndl`** -/
+theorem ndl_lambda_homogeneous (cfg : NdlCfg) (hper : 2 ≤ cfg.perFile) (hjob : 1 ≤ cfg.perJob)
+    (alpha β₁ β₂ lam k : R) (es es' : List (Event String String))
+    (hp : applyPolicyAll cfg.policy es = some es') (hfit : Fits32 es) :
+    ∃ a b, ndlModel Generated.pyMagic Generated.pyVersion cfg alpha β₁ β₂ (k * lam) none es = .ok (a, es.length) ∧
+      ndlModel Generated.pyMagic Generated.pyVersion cfg alpha β₁ β₂ lam none es = .ok (b, es.length) ∧
+      ∀ o c, a.get o c = k * b.get o c :=
+  ndlModel_lambda_homogeneous _ _ (by decide) (by decide) cfg hper hjob alpha β₁ β₂ lam k es es' hp hfit
+
+/-- **α = 0 and β₂ = 0, `ndl.ndl`** (its α is one number): with α = 0 the given
+    weights come back; with β₂ = 0 the row of an outcome that occurs in no event
+    comes back unchanged -/
+theorem ndl_alpha_beta2_zero (cfg : NdlCfg) (hper : 2 ≤ cfg.perFile) (hjob : 1 ≤ cfg.perJob)
+    (alpha β₁ β₂ lam : R) (w : LW R) (es es' : List (Event String String))
+    (hp : applyPolicyAll cfg.policy es = some es') (hfit : Fits32With w es) :
+    (∃ r, ndlModel Generated.pyMagic Generated.pyVersion cfg 0 β₁ β₂ lam (some w) es = .ok (r, es.length) ∧
+      ∀ o c, r.get o c = w.get o c) ∧
+    (∀ o, (∀ e ∈ es, o ∉ e.outcomes) →
+      ∃ r, ndlModel Generated.pyMagic Generated.pyVersion cfg alpha β₁ 0 lam (some w) es = .ok (r, es.length) ∧
+        ∀ c, r.get o c = w.get o c) :=
+  ⟨ndlModel_alpha_zero _ _ (by decide) (by decide) cfg hper hjob β₁ β₂ lam w es es' hp hfit,
+    fun o ho => ndlModel_beta2_zero _ _ (by decide) (by decide) cfg hper hjob alpha β₁ lam w es es' hp hfit o ho⟩
 
 /-! non-vacuity: the affine law on a concrete run in ℤ with a non-zero start -/
 example :
@@ -106,6 +239,68 @@ example :
     rwLearn (fun _ => (1:ℤ)) 2 3 5 (fun o c => W o c + V o c) es 11 1
       = rwLearn (fun _ => (1:ℤ)) 2 3 5 W es 11 1 + rwLearn (fun _ => (1:ℤ)) 2 3 0 V es 11 1
     ∧ rwLearn (fun _ => (1:ℤ)) 2 3 5 W es 11 1 ≠ 0 := by
+  decide +kernel
+
+/-! non-vacuity of the model-level laws: every hypothesis instantiated -/
+
+/-- `dict_affine` on concrete dicts over ℤ (`S₀ = W₀ + V₀` cell by cell), policy
+    `True`, an event with a repeated cue, per-cue learning rates -/
+example :
+    ∃ S W V,
+      dictNdl .dedup (fun c => if c = "a" then (2 : ℤ) else 1) 2 3 5
+        [("x", [("a", 4), ("b", 7)])] [⟨["a", "b", "a"], ["x"]⟩, ⟨["b"], ["y"]⟩] = some S ∧
+      dictNdl .dedup (fun c => if c = "a" then (2 : ℤ) else 1) 2 3 5
+        [("x", [("a", 3)])] [⟨["a", "b", "a"], ["x"]⟩, ⟨["b"], ["y"]⟩] = some W ∧
+      dictNdl .dedup (fun c => if c = "a" then (2 : ℤ) else 1) 2 3 0
+        [("x", [("a", 1), ("b", 7)])] [⟨["a", "b", "a"], ["x"]⟩, ⟨["b"], ["y"]⟩] = some V ∧
+      ∀ o c, wdAbs S o c = wdAbs W o c + wdAbs V o c :=
+  dict_affine .dedup _ 2 3 5 [("x", [("a", 3)])] [("x", [("a", 1), ("b", 7)])] [("x", [("a", 4), ("b", 7)])]
+    (by
+      intro o c
+      by_cases ho : "x" = o
+      · subst ho
+        by_cases ha : "a" = c
+        · subst ha; decide
+        · by_cases hb : "b" = c
+          · subst hb; decide
+          · simp [wdAbs, wdRow, alGet, ha, hb]
+      · simp [wdAbs, wdRow, alGet, ho])
+    _ [⟨["a", "b"], ["x"]⟩, ⟨["b"], ["y"]⟩] (by decide +kernel)
+
+/-- `ndl_lambda_homogeneous` with every hypothesis instantiated: threading, one
+    outcome per job, two events per chunk file, λ = 5 scaled by k = 3 -/
+example :
+    ∃ a b, ndlModel Generated.pyMagic Generated.pyVersion ⟨.keep, .threading, 1, 2⟩ (1 : ℤ) 2 3 (3 * 5) none
+        [⟨["a", "b", "a"], ["x"]⟩, ⟨["b"], ["y"]⟩, ⟨["a"], ["x", "y"]⟩] = .ok (a, 3) ∧
+      ndlModel Generated.pyMagic Generated.pyVersion ⟨.keep, .threading, 1, 2⟩ (1 : ℤ) 2 3 5 none
+        [⟨["a", "b", "a"], ["x"]⟩, ⟨["b"], ["y"]⟩, ⟨["a"], ["x", "y"]⟩] = .ok (b, 3) ∧
+      ∀ o c, a.get o c = 3 * b.get o c :=
+  ndl_lambda_homogeneous ⟨.keep, .threading, 1, 2⟩ (by decide) (by decide) 1 2 3 5 3 _
+    [⟨["a", "b", "a"], ["x"]⟩, ⟨["b"], ["y"]⟩, ⟨["a"], ["x", "y"]⟩] (by decide +kernel)
+    ⟨by decide, by decide +kernel, by decide +kernel, by decide⟩
+
+/-- `ndl_row_depends_only` instantiated: OpenMP vs threading, `True` vs `False`;
+    the second file renames / removes OTHER outcomes (`y` → `z`, `w` dropped)
+    and repeats a cue that `True` removes: row `x` is the same -/
+example :
+    ∃ a b, ndlModel Generated.pyMagic Generated.pyVersion ⟨.keep, .openmp, 2, 2⟩ (1 : ℤ) 2 3 5 none
+        [⟨["a", "b"], ["x", "y"]⟩, ⟨["b"], ["y", "w"]⟩] = .ok (a, 2) ∧
+      ndlModel Generated.pyMagic Generated.pyVersion ⟨.dedup, .threading, 1, 3⟩ (1 : ℤ) 2 3 5 none
+        [⟨["a", "b", "a"], ["x", "z"]⟩, ⟨["b"], ["z"]⟩] = .ok (b, 2) ∧
+      ∀ c, a.get "x" c = b.get "x" c :=
+  ndl_row_depends_only ⟨.keep, .openmp, 2, 2⟩ ⟨.dedup, .threading, 1, 3⟩ (by decide) (by decide) (by decide)
+    (by decide) 1 2 3 5 _ _ [⟨["a", "b"], ["x", "y"]⟩, ⟨["b"], ["y", "w"]⟩]
+    [⟨["a", "b"], ["x", "z"]⟩, ⟨["b"], ["z"]⟩] "x" (by decide +kernel) (by decide +kernel)
+    ⟨by decide, by decide +kernel, by decide +kernel, by decide⟩
+    ⟨by decide, by decide +kernel, by decide +kernel, by decide⟩ (by decide +kernel)
+
+/-- the per-cue `alpha_zero_cue` on a concrete run: cue 1 has α = 0 and keeps its
+    weight 7 while cue 0 learns -/
+example :
+    let α : Nat → ℤ := fun c => if c = 1 then 0 else 1
+    let W : Nat → Nat → ℤ := fun o c => if o = 10 ∧ c = 1 then 7 else 0
+    rwLearn α 2 3 5 W [⟨[0, 1], [10]⟩, ⟨[1, 1], [11]⟩] 10 1 = 7 ∧
+    rwLearn α 2 3 5 W [⟨[0, 1], [10]⟩, ⟨[1, 1], [11]⟩] 10 0 ≠ 0 := by
   decide +kernel
 
 end Pyndl.C13
